@@ -653,6 +653,29 @@ func cmdCheck(args []string) int {
 			}
 		}
 	}
+	// thorough tier: every replay driver of a unit of this property is run as a scenario on the
+	// real code (a regression guard for the defects found so far; never counted as proved)
+	if *tier == "thorough" && *only == "" {
+		seen := map[string]bool{}
+		for _, r := range results {
+			probe := &Obl{Name: r.Name + "#driver-scenarios", Kind: "driver", Unit: r.Name, Status: "scenario"}
+			if p := eng.pkgs[r.PkgPath]; p != nil && len(p.GoFiles) > 0 {
+				probe.PkgDir = filepath.Dir(p.GoFiles[0])
+			}
+			d := findReplayDriver(rep, probe)
+			if d == "" || seen[d] || probe.PkgDir == "" {
+				continue
+			}
+			seen[d] = true
+			path := rep.writeReplay(probe)
+			reproduced := replayOnRealCode(rep, probe, path)
+			rep.Bounded = append(rep.Bounded, map[string]any{"name": "driver:" + filepath.Base(d), "kind": "replay driver scenarios run on the real code (not a proof)", "failing_input_reproduced": reproduced})
+			if reproduced {
+				fmt.Printf("VIOLATION property=%s replay=%s obligation=%s status=scenario (a replay driver's scenario fails on the real code)\n", *prop, path, probe.Name)
+				exit = 1
+			}
+		}
+	}
 	if *updateBaseline {
 		var names []string
 		for _, o := range rep.Discharged {
